@@ -1,5 +1,6 @@
 import BU.Properties.C12
 import BU.Properties.C12_Gen
+import BU.Properties.C12_GenPub
 #print axioms C12.lk_dup
 #print axioms C12.lk_hash160
 #print axioms C12.lk_equalverify
@@ -30,3 +31,5 @@ import BU.Properties.C12_Gen
 #print axioms C12Gen.gen_to_p2wsh
 #print axioms C12Gen.gen_address_script_to_hash160
 #print axioms C12Gen.gen_segwit_script_to_hash
+#print axioms C12GenPub.gen_p2pkh_of_pubkey
+#print axioms C12GenPub.gen_p2wpkh_of_pubkey
